@@ -1,0 +1,77 @@
+//go:build verif
+
+package btree
+
+import "fmt"
+
+// Structural observer for the /verif simulation checks. It only reads; with the verif tag off this
+// file does not exist.
+
+// VerifCheck verifies the B-tree invariants: every node within its degree bounds, children count
+// = items + 1 in internal nodes, all leaves at one depth, items strictly ascending across the whole
+// tree, length equal to the number of items.
+func (t *BTree) VerifCheck() error {
+	if t.root == nil {
+		if t.length != 0 {
+			return fmt.Errorf("empty root but length %d", t.length)
+		}
+		return nil
+	}
+	var count = 0
+	var leafDepth = -1
+	var prev Item
+	var walk func(n *node, depth int, isRoot bool) error
+	walk = func(n *node, depth int, isRoot bool) error {
+		if len(n.items) > t.maxItems() {
+			return fmt.Errorf("node at depth %d holds %d items, maximum is %d", depth, len(n.items), t.maxItems())
+		}
+		if !isRoot && len(n.items) < t.minItems() {
+			return fmt.Errorf("node at depth %d holds %d items, minimum is %d", depth, len(n.items), t.minItems())
+		}
+		if isRoot && len(n.items) == 0 {
+			return fmt.Errorf("non-nil root without items")
+		}
+		if len(n.children) == 0 {
+			if leafDepth == -1 {
+				leafDepth = depth
+			} else if leafDepth != depth {
+				return fmt.Errorf("leaves at depth %d and %d", leafDepth, depth)
+			}
+			for _, it := range n.items {
+				if prev != nil && !prev.Less(it) {
+					return fmt.Errorf("items out of order: %v before %v", prev, it)
+				}
+				prev = it
+				count++
+			}
+			return nil
+		}
+		if len(n.children) != len(n.items)+1 {
+			return fmt.Errorf("internal node at depth %d has %d items and %d children", depth, len(n.items), len(n.children))
+		}
+		for i, c := range n.children {
+			if c == nil {
+				return fmt.Errorf("nil child at depth %d", depth)
+			}
+			if err := walk(c, depth+1, false); err != nil {
+				return err
+			}
+			if i < len(n.items) {
+				var it = n.items[i]
+				if prev != nil && !prev.Less(it) {
+					return fmt.Errorf("items out of order: %v before %v", prev, it)
+				}
+				prev = it
+				count++
+			}
+		}
+		return nil
+	}
+	if err := walk(t.root, 0, true); err != nil {
+		return err
+	}
+	if count != t.length {
+		return fmt.Errorf("tree holds %d items, Len() says %d", count, t.length)
+	}
+	return nil
+}
